@@ -3,7 +3,7 @@
     KmerFinder.kmers_present (_kmer_finder.pyx:170-213) at the level
        "window arithmetic of lines 186-204, then: some k-mer of the entry occurs in
         seq[start,stop) under the match table".
-    The shift-and bit machinery below that level is not re-modelled (correspondence only).
+    The shift-and bit machinery below that level is modelled in Model/ShiftAnd.v and proved equivalent (Proofs/ShiftAndProofs.v).
     A window whose stop lies beyond the read is clamped to the read here; the compiled code
     reads past the buffer there, which can only turn a "no" into a "yes" (DESIGN 7, F7c).
     Python sets are lists; only membership reaches the finder.  Definitions only. *)
